@@ -293,9 +293,11 @@ Definition default_name_moved (d : hdist) : bool :=
   existsb (fun p => let '(nm, _, rc) := p in
              is_prefix (if hd_sigma d then [83; 73; 71; 77; 65; 95] else [79; 77; 69; 71; 65; 95])%N nm
              && negb (text_eqb nm (default_rv_name (hd_sigma d) rc))) (hd_params d).
-(* 242: a joint distribution with a fixed parameter (create_omega_block never writes FIX) *)
+(* 242: a joint distribution with some but not all parameters fixed - NM-TRAN can only fix a whole block
+   (since commit f6a49ae create_omega_block writes FIX when all parameters are fixed) *)
 Definition partial_fix (d : hdist) : bool :=
-  Nat.ltb 1 (length (hd_names d)) && existsb (fun p => snd (snd (fst p))) (hd_params d).
+  Nat.ltb 1 (length (hd_names d)) && existsb (fun p => snd (snd (fst p))) (hd_params d)
+  && negb (forallb (fun p => snd (snd (fst p))) (hd_params d)).
 
 (* the number of random effects a record defines *)
 Definition rec_neta (prev : nat) (root : node) : nat :=
